@@ -102,7 +102,15 @@ Iota(n) == [i \in 1..n |-> i - 1]
 ArrStrCases == {C("arrstr1", [row |-> Iota(n), nprint |-> np]) : n \in 0..9, np \in 1..8}
                \cup {C("arrstr2", [rows |-> [i \in 1..r |-> [j \in 1..c |-> (i - 1) * c + j - 1]], nprint |-> np]) :
                        r \in 1..7, c \in 1..7, np \in 2..6}
-MiscCases == SicCases \cup DtypeCases \cup UniqueCases \cup TextCases \cup ArrStrCases
+SigPos == {<<>>, <<"1">>, <<"'hello'">>, <<"1", "'hello'", "None">>, <<"None", "2">>}
+SigOpt1 == {<<"dtype", "'float32'", "'float64'">>, <<"size", "1", "1">>, <<"size", "2", "1">>, <<"order", "'F'", "'C'">>,
+            <<"axis", "None", "None">>, <<"axis", "0", "None">>}
+SigOpts == {<<>>} \cup {<<o>> : o \in SigOpt1} \cup {<<o, p>> : o \in SigOpt1, p \in SigOpt1}
+SigSeps == {<<", ">>, <<",", ",", ", ">>, <<"; ">>, <<", ", " ", " | ">>, <<",", ";">>}
+SigStrCases == {C("sigstr", [pos |-> p, opt |-> o, sep |-> s]) : p \in SigPos, o \in SigOpts, s \in SigSeps}
+IsStrCases == {C("isstr", [x |-> x]) : x \in {VS(<<>>), VS(<<"a">>), VS(<<"a", "b">>), VNone, VB(1), VI(0), VF(1, 2), VL(<<>>),
+                                               VL(<<VS(<<"a">>)>>), VEll, VA0(VI(1)), VNB(1)}}
+MiscCases == SicCases \cup DtypeCases \cup UniqueCases \cup TextCases \cup ArrStrCases \cup SigStrCases \cup IsStrCases
 
 (* ---------------- apply_on_boundary, fast_1d_tensor_mult ---------------- *)
 FPairs == {<<"x2", "x2">>, <<"x2", "x3">>, <<"p1", "p1">>, <<"none", "x2">>, <<"x3", "none">>}
